@@ -7,3 +7,12 @@ import TinsModel.Props.C07
 #print axioms Tins.Props.C07.trace_refines_reference_fails
 #print axioms Tins.Props.C07.trace_refines_reference_partial
 #print axioms Tins.Props.C07.collisionFree_of_no_twins
+#print axioms Tins.Props.C07.reachable_unique
+#print axioms Tins.Props.C07.announce_iff
+#print axioms Tins.Props.C07.announce_once
+#print axioms Tins.Props.C07.forget_iff
+#print axioms Tins.Props.C07.forget_reason
+#print axioms Tins.Props.C07.finished_iff_flags
+#print axioms Tins.Props.C07.fin_sent_iff
+#print axioms Tins.Props.C07.route_correct
+#print axioms Tins.Props.C07.route_cross_family_dropped
